@@ -18,6 +18,8 @@ def gen_cases(tier):
         pr = gen.build_pair(rng, schema, dyadic=0.1 if i % 7 == 0 else 0.0)
         if i % 9 == 7 and (i // 9) % 3 == 0:
             pr, schema = mixed2(rng) or pr, "mixed2"
+        if i % 9 == 7 and (i // 9) % 3 == 1:
+            pr, schema = circular(rng) or pr, "circular"
         if pr is None:
             continue
         d1, d2, swap = pr
@@ -30,6 +32,8 @@ def gen_cases(tier):
             cfgs.append((rng.choice(gen.keep_choices(rng, d1, d2)), rng.random() < 0.5, o))
         if tier == "quick":
             cfgs = rng.sample(cfgs, min(4, len(cfgs)))
+        if schema == "circular":
+            cfgs = [([], True, None), ([], False, None), ([], False, [4]), ([], True, [1, 2])]
         if schema == "mixed2":
             cfgs = [([], False, [1]), ([], True, None), ([], False, [3, 1]), ([], True, [1, 2, 3, 4, 5])]
         if schema == "t4_chain":
@@ -52,6 +56,23 @@ def mixed2(rng):
         g += [({"y": 1 if s2 > 0 else -1}, rng.randint(1, 4)), ({"x": 1 if s1 > 0 else -1, "i": -1}, rng.randint(0, 5))]
     d1 = {"inv": ["i"], "outv": ["x", "y"], "a": [({"i": 1}, rng.randint(2, 6))] if rng.random() < 0.5 else [], "g": g}
     d2 = {"inv": ["x", "y", "j"], "outv": ["o"], "a": [({"x": s1, "y": s2, "j": 1}, rng.randint(6, 12))], "g": [({"o": 1, "j": -1}, rng.randint(0, 3))]}
+    try:
+        gen.mk_contract(d1), gen.mk_contract(d2)
+    except ValueError:
+        return None
+    return d1, d2, rng.random() < 0.5
+
+
+def circular(rng):
+    """The consumer assumes a bound on the producer's output x and GUARANTEES a relation between x and another of its own inputs j.
+    Its guarantees hold only once its assumptions do: they cannot be what discharges its assumptions.  The producer bounds x weakly
+    (through its input) or not at all from that side."""
+    sg = rng.choice([1, -1])
+    k = rng.randint(1, 3)
+    weak = rng.random() < 0.6
+    d1 = {"inv": ["i"], "outv": ["x"], "a": [({"i": sg}, rng.randint(4, 8))] if rng.random() < 0.5 else [],
+          "g": [({"x": sg, "i": -sg}, rng.randint(2, 5))] if weak else [({"x": -sg, "i": sg}, 0)]}
+    d2 = {"inv": ["x", "j"], "outv": ["o"], "a": [({"x": sg}, k)], "g": [({"x": sg, "j": -sg}, 0), ({"o": 1, "j": -1}, rng.randint(0, 2))]}
     try:
         gen.mk_contract(d1), gen.mk_contract(d2)
     except ValueError:
